@@ -38,7 +38,7 @@ func main() {
 			"diagnostics are compared as multisets of (file, original line, rule, severity, message with digits masked, first line)",
 			"a diagnostic without a rule name cannot be named in a rule list: it is expected to disappear under a bare directive (observed in calibration: it does) and to stay under any rule list",
 			"an include statement is replaced by the included statements: a directive covering the include statement is taken to cover the included module (keys with relation included-file)",
-			"range semantics follow docs/linter.md: `end` without rules re-enables everything, `end` with rules re-enables those rules; nested ranges are not generated except as documented there",
+			"range semantics follow docs/linter.md: `end` without rules re-enables everything, `end` with rules re-enables those rules; the `ranges` family generates properly nested and consecutive start/end pairs (bare and listed, up to four open at once, inside if blocks) and judges them by the stack of open pairs, except where that reading and the documentation's flat wording disagree (after an inner bare end; for a rule named by both an inner and an enclosing listed pair), which is tagged and not judged",
 			"documentation is silent on a blank line between the comment and the statement and on a directive that is not the last leading comment: falco's behaviour is recorded as obs:* tags, only leaks/new diagnostics are violations there",
 			"only balanced ranges inside one block are generated",
 		},
@@ -56,6 +56,12 @@ func genCases(g *fw.GenCtx) {
 		for _, part := range []string{"singles-a", "singles-b", "singles-c", "singles-d", "layouts", "pairs"} {
 			g.Emit("fixed", ccase{Fixed: i, Part: part})
 		}
+	}
+	for k, nr := 0, g.Pick(40, 400); k < nr; k++ {
+		g.Emit("ranges", rcase{Seed: g.Rand.Int63(), N: g.Pick(100, 500)})
+	}
+	for k, nr := 0, g.Pick(20, 200); k < nr; k++ {
+		g.Emit("decls", rcase{Seed: g.Rand.Int63(), N: g.Pick(10, 40)})
 	}
 	n := g.Pick(150, 5000)
 	if os.Getenv("C12_ONLY") == "fixed" {
@@ -170,6 +176,14 @@ func run(c fw.Case) fw.Outcome {
 		case cc.Part == "pairs":
 			w.pairs(true, 0)
 		}
+	case "decls":
+		var rc rcase
+		json.Unmarshal(c.Data, &rc)
+		runDecls(&oc, rc)
+	case "ranges":
+		var rc rcase
+		json.Unmarshal(c.Data, &rc)
+		runRanges(&oc, rc)
 	case "prog":
 		r := rand.New(rand.NewSource(cc.Seed))
 		p := randomProgram(r)
